@@ -288,6 +288,11 @@ def clauses(tier, seed):
                           'MoistPrimitiveEquations.nodal_temperature_adiabatic_tendency')]
   fsw = [SW + 'ShallowWaterEquations.explicit_terms', SW + 'ShallowWaterEquations.implicit_terms', 'dinosaur.shallow_water_states.one_layer',
          'dinosaur.shallow_water_states.multi_layer', 'dinosaur.primitive_equations_states.isothermal_rest_atmosphere']
+  from contracts import column_contracts, vertical_matrix_contracts
+  deductive = column_contracts.clauses()['C05'] + vertical_matrix_contracts.clauses(only=('get_sigma_ratios', 'get_geopotential', 'canary'))
+  for c in deductive:
+    if c.replay is None:
+      c.replay = rerun_replay(run_generic_dry)
   return [
       Clause('numeric:dry total tendency == pointwise continuous equations (independent specification)', 'numeric', fns, run_generic_dry,
              replay=rerun_replay(run_generic_dry), group='jax-a', heavy=True),
@@ -297,15 +302,17 @@ def clauses(tier, seed):
              run_balanced_primitive, replay=rerun_replay(run_balanced_primitive), group='jax-c', heavy=True),
       Clause('numeric:balanced layered shallow-water jets are steady (analytic balance and repository constructors)', 'numeric', fsw,
              run_balanced_shallow_water, replay=rerun_replay(run_balanced_shallow_water), group='jax-d', heavy=True),
-  ]
+  ] + deductive
 
 
 MANIFEST = {
-    'engine': 'rtc',
-    'technique': ('contract-based (run-time, bounded): post-conditions of explicit_terms + implicit_terms against an independent pointwise specification of the '
+    'engine': 'pyvc+rtc',
+    'technique': ('contract-based deductive for the vertical discretisation: sigma_dot (explicit / full), the omega/p term (Durran 8.124), the log-pressure tendency, the sigma ratios and '
+                  'the geopotential matrix (dense and cumulative-sum forms) proved equal to the documented finite differences for every number of layers from the real source (pyvc column / '
+                  'matrix mode); for the whole tendency, bounded run-time contracts: post-conditions of explicit_terms + implicit_terms against an independent pointwise specification of the '
                   'continuous equations (analytic horizontal derivatives, documented vertical differences) and against analytically balanced state families; '
-                  'no deductive clause applies to this property'),
+                  'the relation of the horizontal part to the continuous equations stays bounded (floats vs a PDE)'),
     'text': ('other, bounded: sampled alias-free states (degree <= 2 fields, three amplitudes), enumerated level sets, both transform implementations, dry and moist, '
-             'dense/sparse vertical products; balanced families over enumerated parameters. Nothing here is counted as proved.'),
-    'note': 'trusted: props/spec_pe.py as the statement of the equations; A2.',
+             'dense/sparse vertical products; balanced families over enumerated parameters. Only the vertical-discretisation clauses (smt) are counted as proved.'),
+    'note': 'trusted: props/spec_pe.py as the statement of the equations; A2; column mode and the callee contracts listed in contracts/column_contracts.py (C13, C07, C01/C02).',
 }
